@@ -57,6 +57,8 @@ def plan(tier, seed):
     specs.append({"kind": "names"})
     specs.append({"kind": "scale", "part": "deep"})
     specs.append({"kind": "scale", "part": "long"})
+    specs.append({"kind": "recursion-limit", "limit": None})
+    specs.append({"kind": "recursion-limit", "limit": 320})
     n_rand = 12 if tier == "quick" else 44
     per = 1200 if tier == "quick" else 6000
     for i in range(n_rand):
@@ -109,6 +111,54 @@ def run(spec, ctx):
                 (["q", "$", [["child", [["slice", -5, None, None]]], ["child", [["name", "r"]]], ["desc", [["slice", None, 1, None]]]]], big, "$[-5:].r..[:1]"),
             ):
                 check_case(ctx, ast, doc, text, "large")
+    elif kind == "recursion-limit":
+        # nesting on either side of where the interpreter stops recursing (the process default, and a lowered limit):
+        # a refusal (RecursionError) is the interpreter's, but a nodelist that IS returned must be exact
+        import sys
+
+        import jsonpath
+        from rt import deep, impl
+
+        if spec["limit"]:
+            sys.setrecursionlimit(spec["limit"])
+        lim = sys.getrecursionlimit()
+        for depth in sorted({lim // 2 - 3, lim // 2 + 3, lim - 60, lim - 30, lim - 20, lim - 14, lim - 10, lim - 8, lim - 6, lim - 4, lim - 2, lim, lim + 4, lim + 50, 2 * lim}):
+            for shape, text, expect in (
+                ("objects", "$..a", lambda lv: [x["a"] for x in lv if "a" in x]),
+                ("objects", "$..['x','a']", lambda lv: [y for x in lv for y in ([x["x"]] + ([x["a"]] if "a" in x else []))]),
+                ("arrays", "$..[0]", lambda lv: [x[0] for x in lv]),
+                ("objects", "$..id", lambda lv: [x["id"] for x in lv]),
+                ("objects", "$..*", None), ("arrays", "$..*", None),
+            ):
+                doc, levels = deep.chain(depth, shape)
+                for api in ("findall", "finditer", "findall_async"):
+                    if api == "findall":
+                        o = impl.call(lambda: jsonpath.findall(text, doc))
+                    elif api == "finditer":
+                        o = impl.call(lambda: [m.obj for m in jsonpath.finditer(text, doc)])
+                    else:
+                        import asyncio
+
+                        o = impl.call(lambda: asyncio.run(jsonpath.findall_async(text, doc)))
+                    ctx.evaluation()
+                    key = "limit=%s depth=limit%+d %s" % ("default" if not spec["limit"] else spec["limit"], depth - lim, "refused" if not o.ok else "answered")
+                    ctx.cell("recursion_limit_outcomes", key)
+                    if not o.ok:
+                        if not isinstance(o.exc, RecursionError):
+                            ctx.violation("deep-document-raised:%s" % type(o.exc).__name__, {"class": "recursion-limit", "limit": spec["limit"], "depth": depth, "shape": shape, "text": text}, {"error": o.desc(), "depth": depth})
+                            return
+                        continue
+                    if expect is not None:
+                        want = expect(levels)
+                        ok = len(o.value) == len(want) and all(a is b or (not isinstance(b, (dict, list)) and a == b) for a, b in zip(o.value, want))
+                    else:
+                        ok = len(o.value) == deep.count_nodes(doc)
+                        want = [None] * deep.count_nodes(doc)
+                    if not ok:
+                        ctx.violation("nodelist-differs-on-a-document-nested-near-the-recursion-limit", {"class": "recursion-limit", "limit": spec["limit"], "depth": depth, "shape": shape, "text": text},
+                                      {"text": text, "api": api, "depth": depth, "recursion_limit": lim, "returned": len(o.value), "expected": len(want)})
+                        return
+        return
     elif kind == "scale":
         # sizes on either side of round thresholds: nesting 99..300, arrays and objects around 2^8, 2^10, 2^14, 2^16
         if spec["part"] == "deep":
@@ -220,4 +270,7 @@ def finalize(m, tier):
 
 def replay(case, ctx):
     install()
+    if case.get("class") == "recursion-limit":
+        run({"kind": "recursion-limit", "limit": case.get("limit")}, ctx)
+        return
     check_case(ctx, case["ast"], case["doc"], case["text"], case.get("class", "replay"))
